@@ -127,7 +127,7 @@ func runC07(c *Ctx) {
 	core4 := coreFamily("CORE", grammarCore(), 4)
 	lookF := lookFamily(false)
 	anch := anchFamily(4, false)
-	anchProf := profile{"ANCH {a,\\n,c}", map[rune]rune{'b': '\n'}, []rune{'a', 'b', 'c'}}
+	anchProf := profile{name: "ANCH {a,\\n,c}", m: map[rune]rune{'b': '\n'}, input: []rune{'a', 'b', 'c'}}
 	corpus := corpusPatterns()
 	for _, o := range []optSet{"", "R"} {
 		add("ZW<=4", zw4, o, profP0, 5)
